@@ -1098,7 +1098,7 @@ def collect_guard(check: Check, repo: Repo, rule: str = "COLLECT-GUARD") -> None
     check.floor(rule, 8, "effects in collect_fields_impl")
 
 
-def memo_discovery(check: Check, repo: Repo, mods: list[Module], rule: str = "MEMO-KEY-COVER") -> None:
+def memo_discovery(check: Check, repo: Repo, mods: list[Module], rule: str = "MEMO-KEY-COVER", only=None) -> None:
     """Generic form of MEMO-KEY-COVER: discover `cache.get(key)` / miss / compute / `cache[key] = v` sites."""
     check.rule(
         rule,
@@ -1109,6 +1109,8 @@ def memo_discovery(check: Check, repo: Repo, mods: list[Module], rule: str = "ME
     )
     for mod in mods:
         for fn in mod.functions():
+            if only is not None and not only(fn):
+                continue
             stores = []
             for s in walk_body(fn):
                 subs = [t for t in s.targets if isinstance(t, ast.Subscript)] if isinstance(s, ast.Assign) else []
@@ -1170,6 +1172,21 @@ def memo_discovery(check: Check, repo: Repo, mods: list[Module], rule: str = "ME
                                 why = (f"a hit skips the check `{unparse(g.test)[:60]}` (line {g.lineno}), which depends on {sorted(dep)} - not part of "
                                        f"the key: an entry validated for one {sorted(dep)[0]} is served for another")
                                 break
+                if not missing:
+                    # the value may also be computed from *state* read off the object (the traversal position of a
+                    # validation context: self.context.get_field_def()): such a reading is an input like a parameter
+                    key_src = {unparse(e) for e in _expand_locals(key, fn, org, s)}
+                    for e in _expand_locals(s.value, fn, org, s):
+                        for c in ast.walk(e):
+                            if isinstance(c, ast.Call) and not c.args and not c.keywords and isinstance(c.func, ast.Attribute) \
+                                    and c.func.attr.startswith("get_") and unparse(c.func.value) in ("self.context", "self.type_info", "self._type_info", "context", "type_info") \
+                                    and not any(unparse(c) in k for k in key_src):
+                                missing = {unparse(c)}
+                                why = (f"the stored value is computed from `{unparse(c)}` - the current position of the traversal - which the key "
+                                       f"`{unparse(key)[:40]}` does not identify: the entry made at one position is served at another")
+                                break
+                        if missing:
+                            break
                 check.ob(rule, s, f"{qualname_of(s)}: self.{al}[{unparse(key)[:40]}]", not missing, why)
 
 
@@ -2524,3 +2541,80 @@ def path_threading(check: Check, repo: Repo, rule: str = "PATH-THREAD") -> None:
                      "derived from the caller's own path" if ok else
                      f"`{unparse(v)}` is not derived from the caller's `path` parameter: the callee works at another position than the value it completes")
     check.floor(rule, 15, "calls passing a path between executor methods")
+
+
+def resolver_args_fresh(check: Check, repo: Repo, rule: str = "ARGS-FRESH") -> None:
+    check.rule(
+        rule,
+        "the argument dictionary handed to a resolver (`resolve_fn(source, info, **args)` in Executor.execute_field and in "
+        "execute_subscription) is coerced for that very call: followed through local assignments and through methods of "
+        "the executor that do nothing but return it, every origin of `args` is a call of get_argument_values(...) or a dict "
+        "display - never a value read back from a container kept on the executor. The per-event executors of a "
+        "subscription are shallow copies of one another: a memo of argument values is one dict (holding one coerced input "
+        "object, one list) shared by the resolvers of all events, so what one event's resolver consumes in place is "
+        "missing for the next event",
+    )
+    sites = []
+    for mn in ("execution.executor", "execution.execute"):
+        m = repo.mod(mn)
+        for fn in m.functions():
+            if isinstance(fn, ast.Lambda):
+                continue
+            for c in walk_body(fn):
+                if isinstance(c, ast.Call) and any(kw.arg is None for kw in c.keywords) and isinstance(c.func, ast.Name) and "resolve" in c.func.id:
+                    sites.append((m, fn, c))
+    if len(sites) < 2:
+        raise AnalysisError("ARGS-FRESH: resolver calls with **args not found")
+    classes = ClassIndex(repo)
+
+    def origins(expr: ast.AST, fn: ast.AST, at: ast.AST, depth: int) -> list[tuple[ast.AST, str]]:
+        """(origin expression, verdict) - verdict '' = fresh"""
+        if isinstance(expr, ast.Dict):
+            return [(expr, "")]
+        if isinstance(expr, ast.Call):
+            nm = call_name(expr)
+            if nm.split(".")[-1] == "get_argument_values":
+                return [(expr, "")]
+            if isinstance(expr.func, ast.Attribute) and unparse(expr.func.value) == "self" and depth > 0:
+                cls = next((a for a in ancestors(fn) if isinstance(a, ast.ClassDef)), None)
+                target = None
+                if cls is not None:
+                    target = next((f for f in cls.body if isinstance(f, (ast.FunctionDef, ast.AsyncFunctionDef)) and f.name == expr.func.attr), None)
+                if target is not None:
+                    out = []
+                    for r in walk_body(target):
+                        if isinstance(r, ast.Return) and r.value is not None:
+                            out += origins(r.value, target, r, depth - 1)
+                    return out or [(expr, "returns nothing")]
+            if isinstance(expr.func, ast.Attribute) and expr.func.attr in ("get", "setdefault", "pop") and unparse(expr.func.value).startswith("self."):
+                return [(expr, f"read back from the container `{unparse(expr.func.value)}` kept on the executor")]
+            return [(expr, f"`{unparse(expr)[:50]}` is not a call of get_argument_values")]
+        if isinstance(expr, ast.Subscript) and unparse(expr.value).startswith("self."):
+            return [(expr, f"read back from the container `{unparse(expr.value)}` kept on the executor")]
+        if isinstance(expr, ast.Name):
+            org = Origins(fn)
+            out = []
+            for d in org.reaching(expr.id, at):
+                if d.value is None or d.kind not in ("assign", "walrus"):
+                    out.append((expr, f"`{expr.id}` has an origin that is not an assignment ({d.kind})"))
+                    continue
+                v = d.value
+                # chained assignment `args = self._memo[key] = get_argument_values(...)` stores the fresh dict: not fresh next time
+                st = d.node
+                while st is not None and not isinstance(st, ast.stmt):
+                    st = parent(st)
+                out += origins(v, fn, st if st is not None else at, depth)
+                if isinstance(st, ast.Assign) and any(isinstance(t, ast.Subscript) and unparse(t.value).startswith("self.") for t in st.targets):
+                    out.append((st, "the coerced dict is also stored in a container kept on the executor"))
+            return out or [(expr, f"`{expr.id}` has no reaching definition")]
+        if isinstance(expr, ast.IfExp):
+            return origins(expr.body, fn, at, depth) + origins(expr.orelse, fn, at, depth)
+        return [(expr, f"`{unparse(expr)[:50]}` is not a call of get_argument_values")]
+
+    for m, fn, c in sites:
+        kw = next(k for k in c.keywords if k.arg is None)
+        res = origins(kw.value, fn, c, 2)
+        bad = [w for _, w in res if w]
+        check.ob(rule, c, f"{qualname_of(fn)}: {unparse(c.func)}(..., **{unparse(kw.value)})", not bad,
+                 f"{len(res)} origin(s), each coerced for this call" if not bad else "; ".join(sorted(set(bad))))
+    check.floor(rule, 2, "resolver calls (field execution, subscription source)")
